@@ -905,7 +905,12 @@ class AsyncFIXConnection:
             f" ({self._connection_state.name}) {repr(msg.msg_type)}\n\t {msg}\n"
         )
 
-        err_msg = self._validate_integrity(msg)
+        try:
+            err_msg = self._validate_integrity(msg)
+        except (FIXMessageError, ValueError):
+            # a header field given twice, a MsgSeqNum that is not a number: as
+            #  unusable as a missing one
+            err_msg = True
         if err_msg:
             # Some mandatory tags are missing or corrupt message
             await self.disconnect(
